@@ -92,6 +92,11 @@ type Engine struct {
 		Packages, Funcs, Instrs, CallsResolved, CallsDynamic int
 	}
 	fa map[*ssa.Function]*FuncAnalysis
+
+	// source-level inlining of new helpers (inline.go)
+	Inlined     []string
+	InlineNotes []string
+	DeadHelpers []string
 }
 
 func alias(path string) string {
@@ -101,11 +106,83 @@ func alias(path string) string {
 	return path
 }
 
-// Load type-checks the working tree under dir and builds SSA for the module's packages.
+// Load type-checks the working tree under dir and builds SSA for the module's packages.  New unexported helpers
+// (functions that the reviewed tree does not have) are inlined at source level first, see inline.go.
 func Load(dir string) (*Engine, error) {
+	e, err := loadOverlay(dir, nil)
+	if err != nil || os.Getenv("ALLIANCECHECK_NOINLINE") != "" {
+		return e, err
+	}
+	overlay := map[string][]byte{}
+	var inlined, notes []string
+	cur := e
+	for round := 0; round < 3; round++ {
+		ov, done, nts := inlineNewHelpers(cur.Pkgs, readSource(overlay))
+		notes = append(notes, nts...)
+		if len(ov) == 0 {
+			break
+		}
+		for k, v := range ov {
+			overlay[k] = v
+		}
+		next, err := loadOverlay(dir, overlay)
+		if err != nil {
+			// the rewrite did not type-check: analyse the program as it is written
+			e.InlineNotes = append(notes, "inlining abandoned: "+strings.SplitN(err.Error(), "\n", 3)[0]+" ...")
+			curEngine = e
+			return e, nil
+		}
+		inlined = append(inlined, done...)
+		cur = next
+	}
+	cur.Inlined = inlined
+	cur.InlineNotes = notes
+	cur.hideDeadHelpers()
+	curEngine = cur
+	return cur, nil
+}
+
+// hideDeadHelpers removes new unexported functions without any remaining caller from the rule-visible function lists
+// (they are the left-over declarations of inlined helpers, or dead code).
+func (e *Engine) hideDeadHelpers() {
+	called := map[*ssa.Function]bool{}
+	for _, fn := range e.SrcFuncs {
+		for _, b := range fn.Blocks {
+			for _, in := range b.Instrs {
+				if c, ok := in.(ssa.CallInstruction); ok {
+					if cal := c.Common().StaticCallee(); cal != nil {
+						called[cal] = true
+					}
+				}
+				// function values
+				for _, op := range in.Operands(nil) {
+					if op != nil && *op != nil {
+						if f, ok := (*op).(*ssa.Function); ok {
+							called[f] = true
+						}
+					}
+				}
+			}
+		}
+	}
+	var keep []*ssa.Function
+	for _, fn := range e.SrcFuncs {
+		top := topFunc(fn)
+		k := FuncKey(top)
+		if smPkgs[top.Pkg.Pkg.Path()] && !baselineFuncs[k] && !called[top] && top.Object() != nil && !top.Object().Exported() && top.Name() != "init" {
+			e.DeadHelpers = append(e.DeadHelpers, FuncKey(fn))
+			delete(e.fnByKey, FuncKey(fn))
+			continue
+		}
+		keep = append(keep, fn)
+	}
+	e.SrcFuncs = keep
+}
+
+func loadOverlay(dir string, overlay map[string][]byte) (*Engine, error) {
 	os.Unsetenv("GOWORK")
 	cfg := &packages.Config{
-		Mode: packages.LoadSyntax, Dir: dir, Tests: false,
+		Mode: packages.LoadSyntax, Dir: dir, Tests: false, Overlay: overlay,
 		Env: append(os.Environ(), "GOFLAGS=-mod=mod", "GOPROXY=off", "GOSUMDB=off", "GOTOOLCHAIN=local", "GOWORK=off"),
 	}
 	pkgs, err := packages.Load(cfg, "./x/alliance/...", "./custom/...", "./app/...", pStakingKeep)
